@@ -127,7 +127,8 @@ Example C05_hyps_satisfiable :
   decode_param no_int no_int no_float p (ser p (SArr ["x"; "yy"; "z=1"])) = DRes (PA [PS "x"; PS "yy"; PS "z=1"]) true None.
 Proof. vm_compute. repeat split. Qed.
 
-From KV Require Import Model.DeepObject Spec.DeepSpec Proofs.ServerProofs Proofs.DeepProofs Proofs.DeepBuild Proofs.DeepSer Proofs.DeepKeys.
+From Coq Require Import Permutation.
+From KV Require Import Model.DeepObject Spec.DeepSpec Proofs.ServerProofs Proofs.DeepProofs Proofs.DeepBuild Proofs.DeepSer Proofs.DeepKeys Proofs.DeepOrder Proofs.DeepFound Proofs.DeepFinal.
 (* ---- deepObject query parameters (Model/DeepObject.v; tied to the decoder by its own case stream) ---- *)
 (* after deepSet the path exists: it ends on the value just set, or on the nested object that was
    there before (the nested form wins); a path that parts at the first key is not disturbed *)
@@ -176,6 +177,23 @@ Theorem C05_deep_object_roundtrip :
     exists found, deep_decode parse_int64 parse_int32 parse_float atoi name s (query_of name (ser [] (VObj ms))) = DRes p found None.
 Proof. exact deep_decode_roundtrip. Qed.
 Print Assumptions C05_deep_object_roundtrip.
+(* ... and in full: whatever the order in which the query keys reach the decoder (Go iterates maps),
+   for values whose members are all declared, the decoder returns the value read at the declared
+   types, reports the parameter as found, and no error.  (Permutation of the query; deepSet is a
+   congruence for "same map up to member order" and commutes at paths that part, Proofs/DeepOrder.v;
+   every serialised path leads into the decoded object, Proofs/DeepFound.v) *)
+Theorem C05_deep_object_roundtrip_any_order :
+  forall parse_int64 parse_int32 parse_float atoi,
+  (forall n, atoi (itoa n) = Some (Z.of_nat n)) ->
+  forall name s ms p q',
+    no_byte "["%char name = true -> names_ok s = true -> no_ap s = true ->
+    wfv (VObj ms) -> keys_ok (VObj ms) -> texts_ok (ser [] (VObj ms)) = true ->
+    declared_all s (VObj ms) ->
+    reading parse_int64 parse_int32 parse_float s (VObj ms) = Some p ->
+    Permutation (query_of name (ser [] (VObj ms))) q' ->
+    deep_decode parse_int64 parse_int32 parse_float atoi name s q' = DRes p true None.
+Proof. exact deep_decode_roundtrip_full. Qed.
+Print Assumptions C05_deep_object_roundtrip_any_order.
 (* the premises are satisfiable: a nested value with an array of objects *)
 Example C05_deep_roundtrip_hyps_satisfiable :
   let i := DSPrim (prim_core (Some ["integer"]) "") in
@@ -183,7 +201,7 @@ Example C05_deep_roundtrip_hyps_satisfiable :
   let sch := DSObj [("o", DSObj [("x", i); ("y", DSArr i)] None); ("rows", DSArr (DSObj [("k", s)] None))] None in
   let v := [("o", VObj [("x", VPrim "3"); ("y", VArr [VPrim "4"])]); ("rows", VArr [VObj [("k", VPrim "u")]; VObj [("k", VPrim "v")]])] in
   let pint := fun t => if String.eqb t "3" then Some 3%Z else if String.eqb t "4" then Some 4%Z else None in
-  names_ok sch = true /\ texts_ok (ser [] (VObj v)) = true /\
+  names_ok sch = true /\ no_ap sch = true /\ texts_ok (ser [] (VObj v)) = true /\
   reading pint pint (fun _ => None) sch (VObj v) = Some (PO [("o", PO [("x", PI64 3); ("y", PA [PI64 4])]); ("rows", PA [PO [("k", PS "u")]; PO [("k", PS "v")]])]) /\
   query_of "f" (ser [] (VObj v)) = [("f[o][x]", ["3"]); ("f[o][y][0]", ["4"]); ("f[rows][0][k]", ["u"]); ("f[rows][1][k]", ["v"])].
 Proof. vm_compute. repeat split. Qed.
